@@ -1101,8 +1101,101 @@ def c12(ctx):
     return "model_checking", cov, GS_ASSUME
 
 
+def compiled_sources(ctx):
+    """the operating-system sources util-get-random-bytes.c contains in this configuration (without arc4random_buf)"""
+    cfg = open(os.path.join(vlib.REPO, "config.h")).read()
+    have = lambda k: re.search(r"^#define %s 1" % k, cfg, re.M) is not None
+    probe = subprocess.run(["gcc", "-E", "-dM", "-include", "sys/syscall.h", "-x", "c", "/dev/null"], capture_output=True).stdout.decode()
+    out = []
+    if have("HAVE_GETENTROPY"): out.append("e")
+    if have("HAVE_GETRANDOM"): out.append("r")
+    if have("HAVE_SYSCALL") and re.search(r"^#define SYS_getentropy ", probe, re.M): out.append("E")
+    if have("HAVE_SYSCALL") and re.search(r"^#define SYS_getrandom ", probe, re.M): out.append("R")
+    if have("HAVE_SYS_STAT_H") and have("HAVE_FCNTL_H") and have("HAVE_UNISTD_H"): out.append("u")
+    return out
+
+
 def random_chain(ctx):
-    return {"note": "get_random_bytes fallback chain: see Random.tla (added with the C12 extension)"}
+    """Random.tla: the model is checked (all histories of 6 calls, liveness), the named deviation is shown to be the
+    only hole of 'false sets errno', and EVERY history of MaxCalls calls that TLC generates for this platform's
+    sources is replayed into the real get_random_bytes (one process per history: the flags are statics), the
+    recorded attempts being folded through the same transition functions by TraceRandom."""
+    quick = ctx.tier == "quick"
+    mc = ctx.tlc("RandomMC.tla", "RandomMC.cfg", workers=4, timeout=900)
+    if mc["violated"] or not mc["ok"]:
+        raise Broken("RandomMC: %s" % (mc["violated"] or mc["out"][-800:]))
+    dev = ctx.tlc("RandomMC.tla", "RandomMC_deviation.cfg", workers=1, timeout=300)
+    if "FalseSetsErrnoStrict" not in str(dev["violated"]):
+        raise Broken("RandomMC_deviation: the named deviation is no longer reachable in the model")
+    comp = compiled_sources(ctx)
+    if comp != ["e", "r", "R", "u"]:
+        raise Broken("this platform compiles the sources %s; RandomMC_export.cfg enumerates e,r,R,u" % comp)
+    d = os.path.join(ctx.dir, "rbehav")
+    os.makedirs(d, exist_ok=True)
+    for f in glob.glob(d + "/*"):
+        os.unlink(f)
+    ex = ctx.tlc("RandomMC.tla", "RandomMC_export.cfg" if quick else "RandomMC_export3.cfg", env={"XCV_BEHAV_DIR": d}, workers=1, timeout=1800)
+    if ex["violated"] or not ex["ok"]:
+        raise Broken("RandomMC export: %s" % (ex["violated"] or ex["out"][-800:]))
+    hists = [[json.loads(x) for x in open(f) if x.strip()] for f in sorted(glob.glob(d + "/*.ndjson"))]
+    if len(hists) < 1000:
+        raise Broken("only %d histories exported" % len(hists))
+    rng = ctx.rng
+    cfgev = dict(config_event(ctx, "norand"))
+    cfgev["compiled"] = comp
+    salted = [m for m in cfgev["E"] if m not in ("nt", "bcrypt_x")]
+    b = ctx.build("norand")
+
+    def play(h):
+        cmds = ["rsched " + ("".join("".join(c["ans"]) for c in h) or "=")]
+        for c in h:
+            m = rng.choice(salted)
+            cmds.append(gs_cmd(rng.choice(("gensalt_rn", "gensalt_rn", "gensalt", "gensalt_ra")), gen.PREFIX[m], 0, None))
+        # one more call after the enumerated ones, answered K by whatever source is still alive
+        cmds.append(gs_cmd("gensalt_rn", gen.PREFIX[rng.choice(salted)], 0, None))
+        return cmds
+    scripts = [play(h) for h in hists]
+    from concurrent.futures import ThreadPoolExecutor
+    with ThreadPoolExecutor(12) as ex_:
+        res = list(ex_.map(lambda s: ctx.run_xcv(s, flavour="norand"), scripts))
+    events = []
+    for h, evs in zip(hists, res):
+        gsev = [e for e in evs if e.get("e") in vlib.GS]
+        if len(gsev) != len(h) + 1 and not any(e.get("e") == "Fault" for e in evs):
+            raise Broken("fallback-chain replay lost calls")
+        events.append({"e": "NewProcess"})
+        events += evs
+    # the recorded attempt strings must be the scheduled ones (binding of the replay itself)
+    nmis = 0
+    for h, evs in zip(hists, res):
+        gsev = [e for e in evs if e.get("e") in vlib.GS]
+        for c, e in zip(h, gsev):
+            if [a["a"] for a in e.get("att", [])] != c["ans"]:
+                nmis += 1
+    chunks, cur = [], [cfgev]
+    for e in events:
+        if e.get("e") == "NewProcess" and len(cur) > 4000:
+            chunks.append(cur); cur = [cfgev]
+        cur.append(e)
+    chunks.append(cur)
+    vs = ctx.validate_many(chunks, "TraceRandom.tla", "TraceRandom.cfg", "rnd", par=8, timeout=1800)
+    nv = 0
+    for v, ch in zip(vs, chunks):
+        for x in v["viol"]:
+            ev = ch[x["l"] - 1]
+            nv += 1
+            ctx.violation(x["p"], "fallback chain: %s failed at call %d (%s)" % (x["n"], x["l"], ev.get("e")), compact(ev))
+    if os.environ.get("XCV_DEBUG"):
+        for v, ch in zip(vs, chunks):
+            for x in v["div"][:6]:
+                ev = ch[x["l"] - 1]
+                print("RDIV", x["d"], ev.get("e"), bytes(ev.get("prefix", [])), ev.get("att"), ev.get("ret"), ev.get("errno"), ev.get("ein"), bytes(ev.get("res", [])))
+    ndiv = sum(len(v["div"]) for v in vs)
+    kinds = sorted({x["d"] for v in vs for x in v["div"]})
+    return {"model_divergences": ndiv, "divergence_kinds": kinds, "calls_whose_attempts_differ_from_the_generated_history": nmis, "model_states": mc.get("distinct"), "histories_generated_by_tlc_and_replayed": len(hists), "calls_replayed": sum(v["cnt"]["calls"] for v in vs),
+            "calls_ok": sum(v["cnt"]["ok"] for v in vs), "calls_failed": sum(v["cnt"]["failed"] for v in vs), "sources_compiled": comp,
+            "predicates": ["OSBytes (C12)"], "conformance_divergences_reported_not_fatal": ["ChainOrder", "GaveUpEarly", "ChainResult", "ChainErrno", "FdLeak"],
+            "named_deviation": "a short read of /dev/urandom returns false without writing errno (RandomMC_deviation.cfg finds it; outside the listed properties)"}
 
 
 @prop("C13")
